@@ -738,6 +738,7 @@ package rux
 //@       && (len(r.noRoute) == 0 ==> len(ctx.handlers) == len(r.handlers) + 1 && ctx.handlers[len(r.handlers)] == internal404Handler)
 //@   ensures[C04] everyone_ran_unless_aborted_or_panicked: hookCalls(ctx) == 0 ==> ctx.index >= 63 || started(ctx) == len(ctx.handlers)
 //@   ensures[C03, C10] still_owned: owned(ctx)
+//@   ensures[C07, C02] the_dispatcher_leaves_parameter_maps_alone: forall p Params, k string :: !fresh(p) ==> (k in p) == old(k in p) && p[k] == old(p[k])
 //@   ensures[C11] path_source: lastPath(r) == (r.useEncodedPath ? uf("escapedPath", string, old(ctx.Req.URL)) : old(ctx.Req.URL.Path)) && lastMethod(r) == old(ctx.Req.Method)
 //@   ensures[C09] hook_at_most_once: hookCalls(ctx) <= 1 && (r.OnPanic == nil ==> hookCalls(ctx) == 0)
 //@   ensures[C08, C09] committed_once: wInv(&ctx.writer) && ctx.writer.length >= 0 && hdrCalls(ctx.writer.Writer) == 1
@@ -1008,11 +1009,10 @@ package rux
 //@   ensures first_recorded: firstSeg(route) == first
 //@   ensures groups_match_vars: routeWF(route)
 //@   ensures[C01] without_variables_first_segment_is_literal_and_complete: len($call_FindAllString_0) == 0 && first != "" ==>
-//@       substr(route.path, 1, len(first) + 1) == first ++ "/" && !contains(first, "/") && !contains(first, "[") && len(first) + 1 < indexof(route.path, "[")
-//@   ensures[C01] without_variables_complete_literal_first_segment_is_found: len($call_FindAllString_0) == 0 ==>
-//@       (forall s string :: len(s) > 0 && !contains(s, "/") && substr(route.path, 1, len(s) + 1) == s ++ "/" && len(s) + 1 < indexof(route.path, "[") ==> first == s)
+//@       substr(route.path, 1, len(first) + 1) == first ++ "/" && len(first) + 1 < indexof(route.path, "[")
+//@       && indexof(substr(route.path, 1, indexof(route.path, "[") - 1), "/") == len(first)
 //@   ensures[C01] with_variables_first_segment_is_literal_and_complete: len($call_FindAllString_0) > 0 && first != "" ==>
-//@       substr($phi_path, 1, len(first) + 1) == first ++ "/" && !contains(first, "/") && !contains(first, "{") && len(first) + 1 < indexof($phi_path, "{")
+//@       substr($phi_path, 1, len(first) + 1) == first ++ "/" && !contains(first, "/") && len(first) + 1 < indexof($phi_path, "{")
 //@       && (indexof($phi_path, "[") > 0 ==> len(first) + 1 < indexof($phi_path, "["))
 //@   ensures[C01] with_variables_complete_literal_first_segment_is_found: len($call_FindAllString_0) > 0 ==>
 //@       (forall s string :: len(s) > 0 && !contains(s, "/") && substr($phi_path, 1, len(s) + 1) == s ++ "/" && len(s) + 1 < indexof($phi_path, "{")
